@@ -37,7 +37,8 @@ CONSTANTS NSlots,      \* agents live in slots 1..NSlots
           ValsLo,      \* context values used for sizes 1, 2
           ValsHi,      \* context values used for sizes >= 3
           Kinds,       \* mutation kinds explored by the model checker (subset of MutKinds)
-          MaxDec,      \* bound: decisions counted in one matrix
+          MaxDec,      \* bound: decisions counted in one matrix of size 1, 2
+          MaxDecHi,    \* bound: decisions counted in one matrix of size >= 3
           MaxOps       \* bound: operations
 
 VARIABLES lam, ag, fs, nops, act
@@ -162,10 +163,13 @@ Mutate(a, kind, k, out) ==
   /\ UNCHANGED fs /\ Step
   /\ act' = [op |-> "mutate", a |-> a, kind |-> kind, out |-> out]
 
-Clone(a, c, out) ==
-  /\ Live(ag[a]) /\ c # a
-  /\ Allowed(ag[a], ag[a].layer, out)
-  /\ ag' = [ag EXCEPT ![c] = Outcome(ag[a], ag[a].layer, out)]
+\* clone / load(path) -> new agent / load_checkpoint(path) into an existing agent.  k is the number of
+\* output-layer parameters of the rebuilt network (the model checker takes the source's, a clone or a
+\* reloaded agent having the network of its source; that is the business of other properties).
+Clone(a, c, k, out) ==
+  /\ Live(ag[a]) /\ c # a /\ k \in 1..MaxDim
+  /\ Allowed(ag[a], k, out)
+  /\ ag' = [ag EXCEPT ![c] = Outcome(ag[a], k, out)]
   /\ UNCHANGED fs /\ Step
   /\ act' = [op |-> "clone", a |-> a, c |-> c, out |-> out]
 
@@ -175,17 +179,16 @@ Save(a, f) ==
   /\ UNCHANGED ag /\ Step
   /\ act' = [op |-> "save", a |-> a, f |-> f, out |-> "carry"]
 
-\* load(path) -> new agent; load_checkpoint(path) into an existing agent: the network is the saved one
-LoadNew(f, c, out) ==
-  /\ Live(fs[f])
-  /\ Allowed(fs[f], fs[f].layer, out)
-  /\ ag' = [ag EXCEPT ![c] = Outcome(fs[f], fs[f].layer, out)]
+LoadNew(f, c, k, out) ==
+  /\ Live(fs[f]) /\ k \in 1..MaxDim
+  /\ Allowed(fs[f], k, out)
+  /\ ag' = [ag EXCEPT ![c] = Outcome(fs[f], k, out)]
   /\ UNCHANGED fs /\ Step
   /\ act' = [op |-> "loadnew", f |-> f, c |-> c, out |-> out]
-LoadInto(f, a, out) ==
-  /\ Live(fs[f]) /\ Live(ag[a])
-  /\ Allowed(fs[f], fs[f].layer, out)
-  /\ ag' = [ag EXCEPT ![a] = Outcome(fs[f], fs[f].layer, out)]
+LoadInto(f, a, k, out) ==
+  /\ Live(fs[f]) /\ Live(ag[a]) /\ k \in 1..MaxDim
+  /\ Allowed(fs[f], k, out)
+  /\ ag' = [ag EXCEPT ![a] = Outcome(fs[f], k, out)]
   /\ UNCHANGED fs /\ Step
   /\ act' = [op |-> "loadinto", f |-> f, a |-> a, out |-> out]
 
@@ -194,10 +197,10 @@ CreateAny  == \E a \in Slots, k \in 1..MaxDim : Create(a, k)
 DecideAny  == \E a \in Slots : Live(ag[a]) /\ \E g \in Feats(ag[a].dim) : Decide(a, g)
 LearnAny   == \E a \in Slots : Learn(a)
 MutateAny  == \E a \in Slots, kind \in Kinds, k \in 1..MaxDim, out \in Outs : Mutate(a, kind, k, out)
-CloneAny   == \E a, c \in Slots, out \in Outs : Clone(a, c, out)
+CloneAny   == \E a, c \in Slots, out \in Outs : Live(ag[a]) /\ Clone(a, c, ag[a].layer, out)
 SaveAny    == \E a \in Slots, f \in Files : Save(a, f)
-LoadNewAny == \E f \in Files, c \in Slots, out \in Outs : LoadNew(f, c, out)
-LoadIntoAny == \E f \in Files, a \in Slots, out \in Outs : LoadInto(f, a, out)
+LoadNewAny == \E f \in Files, c \in Slots, out \in Outs : Live(fs[f]) /\ LoadNew(f, c, fs[f].layer, out)
+LoadIntoAny == \E f \in Files, a \in Slots, out \in Outs : Live(fs[f]) /\ LoadInto(f, a, fs[f].layer, out)
 Next == CreateAny \/ DecideAny \/ LearnAny \/ MutateAny \/ CloneAny \/ SaveAny \/ LoadNewAny \/ LoadIntoAny
 Spec == Init /\ [][Next]_vars
 
@@ -234,5 +237,5 @@ Ownership == [][ \A s \in Slots : (s # (IF "c" \in DOMAIN act' THEN act'.c ELSE 
 InitScale == [][ \A s \in Slots : (act'.out \in {"init", "reinit"} /\ s = (IF "c" \in DOMAIN act' THEN act'.c ELSE act'.a))
                     => ag'[s].N = Idm(ag'[s].layer, Ld) /\ ag'[s].D = Ln /\ ag'[s].hist = {} ]_vars
 
-Bound == nops <= MaxOps /\ \A r \in Recs : BagCount(r.hist) <= MaxDec
+Bound == nops <= MaxOps /\ \A r \in Recs : BagCount(r.hist) <= (IF r.dim <= 2 THEN MaxDec ELSE MaxDecHi)
 ================================================================================
